@@ -21,8 +21,7 @@ package token
 //@   modifies nothing
 
 //@ func (t *Token) ErrorLine
-//@   ensures result == t.Pos.EndLine + 1
-//@   modifies nothing
+//@   inline
 
 // String indexes the name table; every token type produced by the lexer is in range.
 //@ func String
